@@ -494,7 +494,7 @@ func c09R4(c *core.Ctx) {
 
 func c09R5(c *core.Ctx) {
 	rule := "C09.R5"
-	c.Rule(rule, "decoders report failures: every readBytes/ReadUvarint error in messageCodec.DecodeTo reaches its result; DecodeState builds its result from NewState(\"\") (all subsets present) and returns the decode error", 5)
+	c.Rule(rule, "decoders report failures: every readBytes/ReadUvarint error in messageCodec.DecodeTo reaches its result; DecodeState builds its result from NewState(\"\") (all subsets present) and returns the decode error; every custom DecodeTo codec returns success only after rv.Set", 8)
 	if dec := fn(c, rule, "internal/message", "messageCodec", "DecodeTo"); dec != nil {
 		rvs := eng.ResultValues(dec, 0)
 		i := 0
@@ -517,6 +517,102 @@ func c09R5(c *core.Ctx) {
 			c.Check(found, rule, fmt.Sprintf("%s:error of read #%d returned", fnName(dec), i), call.Pos(), "a failed read is reported", "the error of this read is dropped or shadowed: a truncated frame decodes to zero messages without an error")
 			i++
 		})
+	}
+	// every custom codec (kelindar/binary `DecodeTo(*binary.Decoder, reflect.Value) error`): a
+	// success return (nil error) is reachable only after rv.Set(...) — a decoder that reports
+	// success without producing its value hands out a zero struct (nil lock, nil map, nil db)
+	// that the next Merge/use dereferences on a goroutine without recover.
+	nDec := 0
+	for _, f := range c.P.ScopeFuncs() {
+		if f.Name() != "DecodeTo" || f.Signature.Recv() == nil || len(f.Params) != 3 || f.Signature.Results().Len() != 1 {
+			continue
+		}
+		if !strings.HasSuffix(f.Params[1].Type().String(), "binary.Decoder") || f.Params[2].Type().String() != "reflect.Value" {
+			continue
+		}
+		nDec++
+		c.Count("functions_analysed", 1)
+		rv := ssa.Value(f.Params[2])
+		isSet := func(in ssa.Instruction) bool {
+			if !eng.IsCallTo(in, "reflect.Value.Set") {
+				return false
+			}
+			return denotesParam(f, eng.CallArgs(in.(ssa.CallInstruction).Common())[0], rv, 0)
+		}
+		nonNilPred := func(v ssa.Value) eng.Pred {
+			return eng.EqPred("result != nil", false, func(x, y ssa.Value) bool { return eng.SameValue(x, v) && eng.IsNilConst(y) })
+		}
+		// may v, returned at ret, be nil (a success)? nil constant: yes; a sentinel/new error: no;
+		// `return err` behind `err != nil`: no; anything else: possibly.
+		mayBeNil := func(v ssa.Value, ret ssa.Instruction) bool {
+			if eng.IsNilConst(v) {
+				return true
+			}
+			if eng.KnownNonNil(v) {
+				return false
+			}
+			if g := eng.Guarded(ret, nonNilPred(v)); g.Guarded && g.Edges > 0 {
+				return false
+			}
+			return true
+		}
+		success := func(in ssa.Instruction) bool {
+			switch x := in.(type) {
+			case *ssa.Return:
+				if len(x.Results) != 1 {
+					return false
+				}
+				if phi, isPhi := x.Results[0].(*ssa.Phi); isPhi && phi.Block() == x.Block() {
+					return false // decided per incoming edge below
+				}
+				return mayBeNil(x.Results[0], x)
+			case *ssa.If, *ssa.Jump:
+				// the last instruction of a predecessor of a `return phi(...)` block: the edge is a
+				// success edge if the value it carries may be nil on that edge
+				b := in.Block()
+				for _, succ := range b.Succs {
+					if len(succ.Instrs) == 0 {
+						continue
+					}
+					ret, isRet := succ.Instrs[len(succ.Instrs)-1].(*ssa.Return)
+					if !isRet || len(ret.Results) != 1 {
+						continue
+					}
+					phi, isPhi := ret.Results[0].(*ssa.Phi)
+					if !isPhi || phi.Block() != succ {
+						continue
+					}
+					// only phi + return (+ debug) in the block
+					for k, p := range succ.Preds {
+						if p != b {
+							continue
+						}
+						v := phi.Edges[k]
+						if eng.IsNilConst(v) {
+							return true
+						}
+						if eng.KnownNonNil(v) || eng.EdgeLicensed(b, succ, nonNilPred(v)) {
+							continue
+						}
+						if g := eng.Guarded(in, nonNilPred(v)); g.Guarded && g.Edges > 0 {
+							continue
+						}
+						return true
+					}
+				}
+			}
+			return false
+		}
+		reached, path := eng.Reach(f, nil, isSet, success)
+		key := fnName(f) + ":success only after rv.Set"
+		if reached {
+			c.Fail(rule, key, f.Pos(), "the decoder can return nil (success) on a path that never sets the decoded value: the caller receives a zero value (nil lock/map/db pointers) and the next use of it panics — on the gossip path, on a goroutine without recover", path...)
+		} else {
+			c.OK(rule, key, f.Pos(), "every success return is preceded by rv.Set")
+		}
+	}
+	if nDec < 3 {
+		c.Undecided(rule, "codecs", token.NoPos, fmt.Sprintf("expected at least 3 custom DecodeTo codecs in production code, found %d", nDec))
 	}
 	if f := fn(c, rule, "internal/event", "", "DecodeState"); f != nil {
 		ns := eng.Calls(f, false, idNewState)
